@@ -12,12 +12,12 @@ import copy
 from harness import ctxrun
 from harness import gen_ctx as GC
 from harness.common import ImplWorker, Model, Report, rng_for
-from harness.impl import LIBS, SHARED_DT, available
+from harness.impl import HOWS, LIBS, SHARED_DT, available
 
 KEYS = ("v", "kind", "name", "idx", "expected", "actual", "missing", "valid", "exn", "called")
 
 
-def relabel(case: dict, assign) -> dict:
+def relabel(case: dict, assign, how=None) -> dict:
     c = copy.deepcopy(case)
     k = [0]
 
@@ -34,6 +34,8 @@ def relabel(case: dict, assign) -> dict:
             h["lib"] = lib
             if isinstance(v, dict) and v.get("k") == "arr":
                 v["lib"] = lib
+                if how is not None:
+                    v["how"] = how(k[0], lib)
 
     for p in c["params"]:
         if p.get("hint"):
@@ -51,7 +53,9 @@ def run(tier: str, seed: int, rep: Report, model: Model) -> dict:
     rnd = rng_for("C15", seed)
     n = 400 if tier == "quick" else 4000
     libs = [l for l in LIBS if available(l, "f32")]
-    rep.rule = ("contexts as in C01 (conforming / one fault / several) with shared dtypes, each run under 3 library assignments; "
+    rep.rule = ("contexts as in C01 (conforming / one fault / several) with shared dtypes, each run under 3 library assignments and once with "
+                "arrays produced another way (Fortran / strided / transposed / broadcast / read-only / non-zero / MaskedArray / ndarray subclass; torch "
+                "non-contiguous / expanded / requires_grad / Parameter / meta device; jax tracers); "
                 "distinct = distinct base context; non-trivial = the three assignments really differ")
     bases = []
     while len(bases) < n:
@@ -70,13 +74,18 @@ def run(tier: str, seed: int, rep: Report, model: Model) -> dict:
         cases.append(relabel(c, lambda i: "torch" if "torch" in libs else "np"))
         pick = [rnd.choice(libs) for _ in range(64)]
         cases.append(relabel(c, lambda i, pick=pick: pick[i % 64]))
+        # the same (shape, dtype) produced another way: layout, strides, flags, contents, subclasses, devices, jax tracers
+        pick2 = [rnd.choice(libs) for _ in range(64)]
+        hows = [rnd.random() for _ in range(64)]
+        cases.append(relabel(c, lambda i, pick2=pick2: pick2[i % 64],
+                             how=lambda i, lib, hows=hows: HOWS[lib][int(hows[i % 64] * len(HOWS[lib]))]))
     worker = ImplWorker("harness.ctxrun")
     try:
         out = ctxrun.run_cases(cases, model, worker)
     finally:
         worker.close()
     for i, base in enumerate(bases):
-        three = out[3 * i : 3 * i + 3]
+        three = out[4 * i : 4 * i + 4]
         if any(im.get("detail", {}).get("__skipped__") for _, im, _, _ in three):
             continue
         ims = [tuple(str(im.get(k)) for k in KEYS) for _, im, _, _ in three]
@@ -88,7 +97,7 @@ def run(tier: str, seed: int, rep: Report, model: Model) -> dict:
         if any(im["v"] == "harness" for _, im, _, _ in three):
             rep.violation({"what": "a call did not finish", **rec})
         elif len(set(ims)) != 1:
-            rep.violation({"what": "verdict or report changes with the array library", **rec})
+            rep.violation({"what": "verdict or report changes with the array library or with how the array was produced", **rec})
         elif ims != mos and three[0][1]["v"] != "identity":
             rep.disagreement({"what": "model and implementation differ", **rec})
         if rep.many_violations():
